@@ -698,6 +698,8 @@ impl Duration {
         provider: &impl TimeZoneProvider,
         // Review question what is the return type of duration.prototye.total?
     ) -> TemporalResult<FiniteF64> {
+        // 7. Let unit be ? GetTemporalUnitValuedOption(totalOf, "unit", datetime, required).
+        crate::options::UnitGroup::DateTime.validate_required_unit(Some(unit), None)?;
         match relative_to {
             // 11. If zonedRelativeTo is not undefined, then
             Some(RelativeTo::ZonedDateTime(zoned_datetime)) => {
